@@ -10,6 +10,19 @@ BASELINE = "cd /repo && /venv/bin/python -m pytest -ra -q -p no:cacheprovider --
 
 # id -> (category, technique, text, note, design_ref, engine)
 CHECKS = {
+    "C07": (
+        "model_checking",
+        "explicit-state exploration of every ByteVec operation history up to a depth bound, each replayed on the real objects and compared byte for byte with a flat-list reference model",
+        "Every operation sequence (quick: depth<=2 over the full 212-letter alphabet and depth<=3 over a reduced grid; thorough: depth<=3 full, depth<=4 minimal) "
+        "of set_byte/set_word/set_slice (bytes, symbolic, overlapping self-slices, foreign ByteVecs), append, copy (both directions), and writes to "
+        "sources and read results, run on fresh real ByteVec objects directly and through sevm.State.mslice/set_mslice/__deepcopy__. After every "
+        "operation: length, chunk-shape invariant, whole content, byte/word/slice reads straddling every chunk boundary and the end, and the "
+        "aliasing oracle (copies, sources and read results never change).",
+        "Trusted: the flat-list reference in props/c07_bytevec.py; z3 substitute+simplify used only to ground extract/concat terms under one valuation "
+        "with pairwise distinct symbolic bytes. Not claimed: random histories beyond the depth bound.",
+        "DESIGN.md §4 C07",
+        "A",
+    ),
     "C19": (
         "exploration",
         "exhaustive enumeration of all byte strings up to a length bound x symbolic-region placements, each compared with a reference decoder; exhaustive jump programs through SEVM.run",
